@@ -176,6 +176,8 @@ def cell_sample(spec):
             vals = [min(float(np.float32(v)), 262143.0) for v in r]
             if spec.get('negatives') and t % 9 == 0:
                 vals[2] = -abs(vals[2]) * 0.01 - 1.0
+            if spec.get('overrange') and t % 37 == 11 and len(vals) > 3:
+                vals[3] = float('nan')              # an event without a value in the second fluorescence channel (floating-point files may hold NaN)
             if spec.get('overrange') and t % 11 == 5:
                 vals[t % 2] = 300000.0 + t          # a scatter value beyond the declared range (floating-point files are not clipped)
             events.append([fcsgen.float_bits(v, dtc) for v in vals] + [fcsgen.float_bits(float(t), dtc)])
